@@ -119,6 +119,8 @@ pub mod bytes { pub mod streaming {
 pub mod character {
     use vstd::prelude::*;
     use vx_spec::wire::*;
+    pub open spec fn is_alphabetic_spec(chr: u8) -> bool { is_alpha(chr) }
+    #[verifier::when_used_as_spec(is_alphabetic_spec)]
     pub fn is_alphabetic(chr: u8) -> (r: bool)
         ensures r == is_alpha(chr)
     { (chr >= 0x41 && chr <= 0x5A) || (chr >= 0x61 && chr <= 0x7A) }
